@@ -406,6 +406,8 @@ class Item:
         if re.search(r"\w$", old):
             pat = pat + r"\b"
         hits = [h for h in re.finditer(pat, self.text) if self.m[h.start()] == self.text[h.start()]]
+        # occurrences inside regions already dropped (R1) are gone anyway
+        hits = [h for h in hits if not any(e[0] <= h.start() and h.end() <= e[1] and e[0] < e[1] for e in self.edits)]
         if not hits:
             raise Undecided("LOST-ANCHOR: %s target `%s` not in %s" % (rule, old, self.where()))
         for h in hits:
@@ -535,6 +537,24 @@ class Item:
                 continue  # belongs to a nested loop
             self.rewrite(cpos, cpos + len("continue"), "{ vx_i = vx_i + 1; continue }", "R3-for-index")
         self.rewrite(bclose, bclose, "  vx_i = vx_i + 1;\n    ", "R3-for-index")
+
+    def r3_for_rev(self, fn, k):
+        """for PAT in RECV.iter().rev() { BODY }  ==>  index loop from RECV.len() down to 0
+        (the index is decremented at the start of the body, so break/continue need no rewriting)"""
+        ls = self.loops(fn)
+        if k > len(ls) or ls[k - 1][0] != "for":
+            raise Undecided("LOST-ANCHOR: R3 for-rev loop %d of fn %s in %s" % (k, fn, self.where()))
+        _, s, bopen, bclose = ls[k - 1]
+        hdr = self.text[s:bopen]
+        mo = re.match(r"for\s+(.+?)\s+in\s+(.+?)\s*\.\s*iter\s*\(\s*\)\s*\.\s*rev\s*\(\s*\)\s*$", hdr, re.S)
+        if not mo:
+            raise Undecided("R3 for-rev: header not recognised at %s:%d" % (self.relpath, self.line_of(s)))
+        pat, recv = mo.group(1).strip(), mo.group(2).strip()
+        if pat.startswith("&"):
+            bind = "let %s = %s[vx_i];" % (pat[1:].strip(), recv)
+        else:
+            bind = "let %s = &%s[vx_i];" % (pat, recv)
+        self.rewrite(s, bopen + 1, "let mut vx_i: usize = %s.len();\n    while vx_i > 0\n    /*@loop*/\n    {\n      vx_i = vx_i - 1;\n      %s/*@body*/" % (recv, bind), "R3-for-rev")
 
     # -- output ----------------------------------------------------------------------------------
     def render(self):
@@ -907,18 +927,20 @@ def verify_unit(unit, workdir, repo=REPO, rlimit=None):
         # ensures clause (same fn); for a failed precondition the primary span is the callee's
         # requires clause and the secondary span the call site -> use the call site.
         own_line = line
-        if "precondition" in msg or "postcondition" in msg:
-            sec = [s for s in spans if not s.get("is_primary")]
-            if sec:
-                own_line = sec[0]["line_start"]
+        sec = [s for s in spans if not s.get("is_primary")]
+        clause_span = prim[0] if prim else None
+        if "postcondition" in msg and sec:
+            own_line = sec[0]["line_start"]       # primary = ensures clause, secondary = end of the body
+        elif "precondition" in msg and sec:
+            clause_span = sec[0]                  # primary = call site, secondary = the failed requires
         f = fn_at(own_line)
         o = origin(own_line)
         clause = ""
-        if prim and prim[0].get("text"):
-            t = prim[0]["text"][0]
+        if clause_span and clause_span.get("text"):
+            t = clause_span["text"][0]
             clause = t["text"][t["highlight_start"] - 1:t["highlight_end"] - 1].strip()
-            if prim[0]["line_end"] != prim[0]["line_start"]:
-                clause = norm(" ".join(x["text"] for x in prim[0]["text"]))[:200]
+            if clause_span["line_end"] != clause_span["line_start"]:
+                clause = norm(" ".join(x["text"] for x in clause_span["text"]))[:200]
         rec = {"message": msg, "kind": kind, "gen_line": line, "fn": f["name"] if f else None,
                "fn_in": short_qual(f["in"]) if f else "", "origin": o, "clause": clause,
                "rendered": d.get("rendered", "")}
